@@ -94,7 +94,7 @@ def has_cfg_test_attribute(mod_node: Node) -> bool:
     """
     prev_sibling = _skip_comments(mod_node.prev_sibling)
     while prev_sibling is not None and prev_sibling.type == "attribute_item":
-        if "cfg(test)" in _get_node_text(prev_sibling):
+        if "cfg(test)" in "".join(_get_node_text(prev_sibling).split()):  # also #[cfg( test )]
             return True
         prev_sibling = _skip_comments(prev_sibling.prev_sibling)
     return False
